@@ -55,7 +55,12 @@ def make_family_case(rng, n_children=1, n_variants=(6, 14), contig_len=(1500, 30
     nv = rng.randrange(n_variants[0], n_variants[1] + 1)
     variants = sim.make_variants(rng, "chr1", seq, nv, kinds=kinds, min_gap=min_gap)
     n = len(variants)
-    names = names or (["father", "mother"] + [f"child{i + 1}" for i in range(n_children)])
+    if names is None:
+        # children's names are not always in alphabetical order in the PED file (PED line order = trio order)
+        kids = [f"child{i + 1}" for i in range(n_children)]
+        if n_children > 1 and rng.random() < 0.5:
+            kids = ["zoe"] + kids[1:]
+        names = ["father", "mother"] + kids
     father, mother, children = names[0], names[1], names[2:2 + n_children]
     samples = [father, mother] + children
     haps = {s: [[], []] for s in samples}
